@@ -156,6 +156,7 @@ type SimNode struct {
 	mu      sync.Mutex
 	meta    []byte
 	events  []evRec
+	genStart int // index in events of the first event of the current instance
 	evSeq   *int // shared global sequence
 	msgs    []msgRec
 	merged  []msgRec
@@ -439,6 +440,9 @@ func (c *Cluster) buildConfig(n *SimNode, cp CfgPlan) *Config {
 	}
 	conf.Logger = log.New(n, "", 0)
 	n.gen++
+	n.mu.Lock()
+	n.genStart = len(n.events) // the log of this instance begins here
+	n.mu.Unlock()
 	conf.Events = &instEvents{n, n.gen}
 	conf.Delegate = n
 	conf.Merge = mergeDel{n}
